@@ -52,3 +52,30 @@ Print Assumptions C09_refused_erasable.
 Print Assumptions C09_short_source_not_ok.
 Print Assumptions C09_short_source_add_not_ok.
 Print Assumptions C09_finalized_refuses.
+
+(* ---------- Tie A, decision logic (tools/src2v2.py -> gen/Src2.v): the ArchiveWriter methods re-translated from the source simulate Writer.v (guard order, refused calls leave the state, finalize checks open files before the state moves) ---------- *)
+From MLA Require SrcTie2.
+Check SrcTie2.start_file_sim.
+Theorem C09_tie_start_file_sim : ltac:(let t := type of SrcTie2.start_file_sim in exact t).
+Proof. exact SrcTie2.start_file_sim. Qed.
+Print Assumptions C09_tie_start_file_sim.
+Check SrcTie2.append_file_content_sim.
+Theorem C09_tie_append_file_content_sim : ltac:(let t := type of SrcTie2.append_file_content_sim in exact t).
+Proof. exact SrcTie2.append_file_content_sim. Qed.
+Print Assumptions C09_tie_append_file_content_sim.
+Check SrcTie2.end_file_sim.
+Theorem C09_tie_end_file_sim : ltac:(let t := type of SrcTie2.end_file_sim in exact t).
+Proof. exact SrcTie2.end_file_sim. Qed.
+Print Assumptions C09_tie_end_file_sim.
+Check SrcTie2.finalize_sim.
+Theorem C09_tie_finalize_sim : ltac:(let t := type of SrcTie2.finalize_sim in exact t).
+Proof. exact SrcTie2.finalize_sim. Qed.
+Print Assumptions C09_tie_finalize_sim.
+Check SrcTie2.RInv_init.
+Theorem C09_tie_RInv_init : ltac:(let t := type of SrcTie2.RInv_init in exact t).
+Proof. exact SrcTie2.RInv_init. Qed.
+Print Assumptions C09_tie_RInv_init.
+Check SrcTie2.mark_cont_sim.
+Theorem C09_tie_mark_cont_sim : ltac:(let t := type of SrcTie2.mark_cont_sim in exact t).
+Proof. exact SrcTie2.mark_cont_sim. Qed.
+Print Assumptions C09_tie_mark_cont_sim.
